@@ -45,6 +45,10 @@ def _run(tr, inputs, use_ctx=True):
             if "crop size" in str(e):
                 raise Refused("crop larger than image")
             raise
+        except RuntimeError as e:
+            if "clone() the tensor" in str(e):
+                raise Refused("in-place member after a member that returns an expanded view")
+            raise
         outs.append(y)
         ctxs.append(ctx)
     return outs, ctxs
